@@ -679,4 +679,500 @@ theorem readScalar_take (cfg : Cfg) (s : Scalar) (d : Bytes) (pos : Nat) (v : Va
         · rename_i hc; rw [if_pos hc]; cases hl; simp only []; rw [hpos]
         · rename_i hc; rw [if_neg hc]; cases hl; simp only []; rw [hpos]
 
+theorem readScalarArray_take (cfg : Cfg) (s : Scalar) (n : Nat) (d : Bytes) (pos : Nat) (v : Val) (p q : Nat)
+    (h : readScalarArray cfg s n d pos = some (.ok (v, p))) (hq : p ≤ q) :
+    readScalarArray cfg s n (d.take q) pos = some (.ok (v, p)) := by
+  cases s with
+  | pint k sg =>
+    simp only [readScalarArray, bind, pure, Option.some.injEq] at h ⊢
+    obtain ⟨⟨bs, p'⟩, h1, h2⟩ := bind_ok h
+    cases h2
+    rw [readExact_take q h1 hq]; rfl
+  | pflt k =>
+    simp only [readScalarArray, bind, pure, Option.some.injEq] at h ⊢
+    obtain ⟨⟨bs, p'⟩, h1, h2⟩ := bind_ok h
+    cases h2
+    rw [readExact_take q h1 hq]; rfl
+  | char =>
+    simp only [readScalarArray, bind, pure, Option.some.injEq] at h ⊢
+    split at h
+    · rename_i hc; rw [if_pos hc]; exact h
+    · rename_i hc; rw [if_neg hc]
+      obtain ⟨⟨bs, p'⟩, h1, h2⟩ := bind_ok h
+      cases h2
+      rw [readExact_take q h1 hq]; rfl
+  | wchar =>
+    simp only [readScalarArray, bind, pure, Option.some.injEq] at h ⊢
+    split at h
+    · rename_i hc; rw [if_pos hc]; exact h
+    · rename_i hc; rw [if_neg hc]
+      obtain ⟨⟨bs, p'⟩, h1, h2⟩ := bind_ok h
+      obtain ⟨w, h3, h4⟩ := bind_ok h2
+      cases h4
+      rw [readExact_take q h1 hq]
+      simp only [Except.bind, h3]; rfl
+  | aint k sg => simp [readScalarArray] at h
+  | leb sg => simp [readScalarArray] at h
+  | void => simp [readScalarArray] at h
+
+/-- a scalar that is not `void` and whose size is not 0 consumes at least one byte -/
+theorem readScalar_adv (cfg : Cfg) (s : Scalar) (d : Bytes) (pos : Nat) (v : Val) (p : Nat)
+    (h : readScalar cfg s d pos = .ok (v, p)) (hs : s.size ≠ some 0) : pos < p ∧ p ≤ d.length := by
+  cases s with
+  | pint n sg =>
+    simp only [readScalar, bind, pure] at h
+    obtain ⟨⟨bs, p'⟩, h1, h2⟩ := bind_ok h
+    cases h2
+    exact readExact_adv h1 (by simp [Scalar.size] at hs; omega)
+  | pflt n =>
+    simp only [readScalar, bind, pure] at h
+    obtain ⟨⟨bs, p'⟩, h1, h2⟩ := bind_ok h
+    cases h2
+    exact readExact_adv h1 (by simp [Scalar.size] at hs; omega)
+  | aint n sg =>
+    simp only [readScalar, bind, pure] at h
+    obtain ⟨⟨bs, p'⟩, h1, h2⟩ := bind_ok h
+    cases h2
+    exact readExact_adv h1 (by simp [Scalar.size] at hs; omega)
+  | char =>
+    simp only [readScalar, bind, pure] at h
+    obtain ⟨⟨bs, p'⟩, h1, h2⟩ := bind_ok h
+    cases h2
+    exact readExact_adv h1 (by decide)
+  | wchar =>
+    simp only [readScalar, bind, pure] at h
+    obtain ⟨⟨bs, p'⟩, h1, h2⟩ := bind_ok h
+    obtain ⟨w, h3, h4⟩ := bind_ok h2
+    cases h4
+    exact readExact_adv h1 (by decide)
+  | void => simp [Scalar.size] at hs
+  | leb sg =>
+    simp only [readScalar] at h
+    cases hl : lebRead sg (d.drop pos) with
+    | error e => rw [hl] at h; cases h
+    | ok vr =>
+      obtain ⟨w, rest⟩ := vr
+      rw [hl] at h
+      cases h
+      have := (lebRead_append sg _ [] w rest hl).2
+      rw [List.length_drop] at this
+      omega
+
+theorem readScalar0_take (cfg : Cfg) (s : Scalar) (d : Bytes) (q : Nat) (hs : s.size ≠ some 0 ∨ s = .void) :
+    ∀ (f pos : Nat) (acc vs : List Val) (p : Nat), readScalar0 cfg s d f pos acc = .ok (vs, p) → p ≤ q →
+      (s ≠ .void → pos < p ∧ p ≤ d.length) ∧
+      ∀ f', p - pos + 1 ≤ f' → readScalar0 cfg s (d.take q) f' pos acc = .ok (vs, p) := by
+  intro f
+  induction f with
+  | zero => intro pos acc vs p h; simp [readScalar0] at h
+  | succ f ih =>
+    intro pos acc vs p h hq
+    -- the generic step: a read from `pos` to `p1 > pos`, then either stop or continue
+    have step : ∀ (p1 : Nat) (c : Prop) [Decidable c] (w : Val),
+        (if c then Except.ok (acc.reverse, p1) else readScalar0 cfg s d f p1 (w :: acc)) = .ok (vs, p) →
+        pos < p1 → p1 ≤ d.length →
+        (pos < p ∧ p ≤ d.length) ∧ p1 ≤ p ∧
+        ∀ f'', p - pos ≤ f'' →
+          (if c then Except.ok (acc.reverse, p1) else readScalar0 cfg s (d.take q) f'' p1 (w :: acc)) = .ok (vs, p) := by
+      intro p1 c _ w h hp1 hp1d
+      by_cases hc : c
+      · rw [if_pos hc] at h; cases h
+        exact ⟨⟨hp1, hp1d⟩, Nat.le_refl _, fun f'' _ => by rw [if_pos hc]⟩
+      · rw [if_neg hc] at h
+        obtain ⟨i1, i2⟩ := ih _ _ _ _ h hq
+        have hp1p := readScalar0_pos cfg s d _ _ _ _ _ h
+        by_cases hv : s = .void
+        · subst hv
+          cases f with
+          | zero => simp [readScalar0] at h
+          | succ f =>
+            simp only [readScalar0] at h; cases h
+            refine ⟨⟨hp1, hp1d⟩, Nat.le_refl _, ?_⟩
+            intro f'' hf''; rw [if_neg hc]; exact i2 f'' (by omega)
+        · obtain ⟨j1, j2⟩ := i1 hv
+          refine ⟨⟨by omega, j2⟩, hp1p, ?_⟩
+          intro f'' hf''; rw [if_neg hc]; exact i2 f'' (by omega)
+    cases s with
+    | void =>
+      simp only [readScalar0] at h; cases h
+      refine ⟨fun hv => absurd rfl hv, ?_⟩
+      intro f' hf'
+      obtain ⟨f'', rfl⟩ : ∃ f'', f' = f'' + 1 := ⟨f' - 1, by omega⟩
+      simp only [readScalar0]
+    | char =>
+      simp only [readScalar0] at h
+      cases h1 : readExact d pos 1 with
+      | error e => rw [h1] at h; cases h
+      | ok bp =>
+        obtain ⟨bs, p1⟩ := bp
+        rw [h1] at h; simp only [] at h
+        obtain ⟨a1, a2⟩ := readExact_adv h1 (by decide)
+        obtain ⟨s1, s2, s3⟩ := step p1 _ _ h a1 a2
+        refine ⟨fun _ => s1, ?_⟩
+        intro f' hf'
+        obtain ⟨f'', rfl⟩ : ∃ f'', f' = f'' + 1 := ⟨f' - 1, by omega⟩
+        simp only [readScalar0]
+        rw [readExact_take q h1 (by omega)]
+        exact s3 f'' (by omega)
+    | wchar =>
+      simp only [readScalar0] at h
+      cases h1 : readExact d pos 2 with
+      | error e => rw [h1] at h; cases h
+      | ok bp =>
+        obtain ⟨bs, p1⟩ := bp
+        rw [h1] at h; simp only [] at h
+        obtain ⟨a1, a2⟩ := readExact_adv h1 (by decide)
+        obtain ⟨s1, s2, s3⟩ := step p1 _ _ h a1 a2
+        refine ⟨fun _ => s1, ?_⟩
+        intro f' hf'
+        obtain ⟨f'', rfl⟩ : ∃ f'', f' = f'' + 1 := ⟨f' - 1, by omega⟩
+        simp only [readScalar0]
+        rw [readExact_take q h1 (by omega)]
+        exact s3 f'' (by omega)
+    | pint k sg =>
+      have hs' : (Scalar.pint k sg).size ≠ some 0 := by
+        rcases hs with hs | hs
+        · exact hs
+        · cases hs
+      simp only [readScalar0] at h
+      cases h1 : readScalar cfg (.pint k sg) d pos with
+      | error e => rw [h1] at h; cases h
+      | ok bp =>
+        obtain ⟨w, p1⟩ := bp
+        rw [h1] at h; simp only [] at h
+        obtain ⟨a1, a2⟩ := readScalar_adv cfg _ d pos w p1 h1 hs'
+        obtain ⟨s1, s2, s3⟩ := step p1 _ _ h a1 a2
+        refine ⟨fun _ => s1, ?_⟩
+        intro f' hf'
+        obtain ⟨f'', rfl⟩ : ∃ f'', f' = f'' + 1 := ⟨f' - 1, by omega⟩
+        simp only [readScalar0]
+        rw [readScalar_take cfg _ d pos w p1 q h1 (by omega)]
+        exact s3 f'' (by omega)
+    | pflt k =>
+      have hs' : (Scalar.pflt k).size ≠ some 0 := by
+        rcases hs with hs | hs
+        · exact hs
+        · cases hs
+      simp only [readScalar0] at h
+      cases h1 : readScalar cfg (.pflt k) d pos with
+      | error e => rw [h1] at h; cases h
+      | ok bp =>
+        obtain ⟨w, p1⟩ := bp
+        rw [h1] at h; simp only [] at h
+        obtain ⟨a1, a2⟩ := readScalar_adv cfg _ d pos w p1 h1 hs'
+        obtain ⟨s1, s2, s3⟩ := step p1 _ _ h a1 a2
+        refine ⟨fun _ => s1, ?_⟩
+        intro f' hf'
+        obtain ⟨f'', rfl⟩ : ∃ f'', f' = f'' + 1 := ⟨f' - 1, by omega⟩
+        simp only [readScalar0]
+        rw [readScalar_take cfg _ d pos w p1 q h1 (by omega)]
+        exact s3 f'' (by omega)
+    | aint k sg =>
+      have hs' : (Scalar.aint k sg).size ≠ some 0 := by
+        rcases hs with hs | hs
+        · exact hs
+        · cases hs
+      simp only [readScalar0] at h
+      cases h1 : readScalar cfg (.aint k sg) d pos with
+      | error e => rw [h1] at h; cases h
+      | ok bp =>
+        obtain ⟨w, p1⟩ := bp
+        rw [h1] at h; simp only [] at h
+        obtain ⟨a1, a2⟩ := readScalar_adv cfg _ d pos w p1 h1 hs'
+        obtain ⟨s1, s2, s3⟩ := step p1 _ _ h a1 a2
+        refine ⟨fun _ => s1, ?_⟩
+        intro f' hf'
+        obtain ⟨f'', rfl⟩ : ∃ f'', f' = f'' + 1 := ⟨f' - 1, by omega⟩
+        simp only [readScalar0]
+        rw [readScalar_take cfg _ d pos w p1 q h1 (by omega)]
+        exact s3 f'' (by omega)
+    | leb sg =>
+      have hs' : (Scalar.leb sg).size ≠ some 0 := by simp [Scalar.size]
+      simp only [readScalar0] at h
+      cases h1 : readScalar cfg (.leb sg) d pos with
+      | error e => rw [h1] at h; cases h
+      | ok bp =>
+        obtain ⟨w, p1⟩ := bp
+        rw [h1] at h; simp only [] at h
+        obtain ⟨a1, a2⟩ := readScalar_adv cfg _ d pos w p1 h1 hs'
+        obtain ⟨s1, s2, s3⟩ := step p1 _ _ h a1 a2
+        refine ⟨fun _ => s1, ?_⟩
+        intro f' hf'
+        obtain ⟨f'', rfl⟩ : ∃ f'', f' = f'' + 1 := ⟨f' - 1, by omega⟩
+        simp only [readScalar0]
+        rw [readScalar_take cfg _ d pos w p1 q h1 (by omega)]
+        exact s3 f'' (by omega)
+
+theorem readScalarNullTerm_take (cfg : Cfg) (s : Scalar) (d : Bytes) (pos : Nat) (v : Val) (p q : Nat)
+    (hs : s.size ≠ some 0 ∨ s = .void) (h : readScalarNullTerm cfg s d pos = .ok (v, p)) (hq : p ≤ q) :
+    readScalarNullTerm cfg s (d.take q) pos = .ok (v, p) := by
+  unfold readScalarNullTerm at h ⊢
+  cases h1 : readScalar0 cfg s d (d.length - pos + 2) pos [] with
+  | error e => rw [h1] at h; cases h
+  | ok vp =>
+    obtain ⟨vs, p'⟩ := vp
+    rw [h1] at h
+    have hp' : p' = p := by
+      cases s with
+      | char => cases h; rfl
+      | wchar =>
+        simp only [] at h
+        obtain ⟨w, _, h3⟩ := map_ok h
+        cases h3; rfl
+      | pint _ _ => cases h; rfl
+      | pflt _ => cases h; rfl
+      | aint _ _ => cases h; rfl
+      | leb _ => cases h; rfl
+      | void => cases h; rfl
+    subst hp'
+    obtain ⟨i1, i2⟩ := readScalar0_take cfg s d q hs _ _ _ _ _ h1 hq
+    have hpos := readScalar0_pos cfg s d _ _ _ _ _ h1
+    have hfuel : p' - pos + 1 ≤ (d.take q).length - pos + 2 := by
+      by_cases hv : s = .void
+      · subst hv
+        cases hf : d.length - pos + 2 with
+        | zero => omega
+        | succ f => rw [hf] at h1; simp only [readScalar0] at h1; cases h1; omega
+      · obtain ⟨j1, j2⟩ := i1 hv
+        rw [List.length_take]
+        simp only [Nat.min_def]
+        split <;> omega
+    rw [i2 _ hfuel]
+    exact h
+
+/-! ### Truncating the input after the end position: the recursive readers -/
+
+/-- the hypothesis on the element type -/
+def ElemT (cfg : Cfg) (al : Bool) (e : Ty) (d : Bytes) : Prop :=
+  ∀ ctx pos v p, read cfg e ctx d pos = .ok (v, p) → (al = true → sAlign cfg e ∣ pos) →
+    ∀ q, p ≤ q → read cfg e ctx (d.take q) pos = .ok (v, p)
+
+theorem t_sc (cfg : Cfg) (al : Bool) (s : Scalar) (a : Nat) (d : Bytes) : ElemT cfg al (.sc s a) d := by
+  intro ctx pos v p h _ q hq
+  rw [read_sc] at h ⊢
+  exact readScalar_take cfg s d pos v p q h hq
+
+theorem t_enum (cfg : Cfg) (al : Bool) (b : Scalar) (a : Nat) (f : Bool) (d : Bytes) :
+    ElemT cfg al (.enum b a f) d := by
+  intro ctx pos v p h _ q hq
+  rw [read_enum] at h ⊢
+  obtain ⟨i, p', h1, h2⟩ := wrapInt_ok h
+  cases h2
+  rw [readScalar_take cfg b d pos _ _ q h1 hq]; rfl
+
+theorem t_ptr (cfg : Cfg) (al : Bool) (t : Ty) (d : Bytes) : ElemT cfg al (.ptr t) d := by
+  intro ctx pos v p h _ q hq
+  rw [read_ptr] at h ⊢
+  obtain ⟨i, p', h1, h2⟩ := wrapInt_ok h
+  cases h2
+  rw [readScalar_take cfg _ d pos _ _ q h1 hq]; rfl
+
+theorem t_N (cfg : Cfg) (al : Bool) (e : Ty) (d : Bytes) (hPF : ElemPF cfg al e d) (hT : ElemT cfg al e d) :
+    ∀ (n : Nat) (ctx : Ctx) (pos : Nat) (vs : Vals) (p : Nat), readN cfg e n ctx d pos = .ok (vs, p) →
+      (al = true → sAlign cfg e ∣ pos) → ∀ q, p ≤ q → readN cfg e n ctx (d.take q) pos = .ok (vs, p) := by
+  intro n
+  induction n with
+  | zero => intro ctx pos vs p h _ q _; rw [readN_zero] at h ⊢; exact h
+  | succ n ih =>
+    intro ctx pos vs p h hpos q hq
+    rw [readN_succ] at h ⊢
+    obtain ⟨⟨v, p1⟩, h1, h2⟩ := bind_ok h
+    obtain ⟨⟨vs', p'⟩, h3, h4⟩ := bind_ok h2
+    cases h4
+    obtain ⟨_, a2, _⟩ := hPF _ _ _ _ h1 hpos
+    obtain ⟨b1, _, _⟩ := pf_N cfg al e d hPF n _ _ _ _ h3 a2
+    rw [hT _ _ _ _ h1 hpos q (by omega)]
+    simp only [Except.bind]
+    rw [ih _ _ _ _ h3 a2 q hq]
+
+theorem t_array (cfg : Cfg) (al : Bool) (e : Ty) (d : Bytes) (hPF : ElemPF cfg al e d) (hT : ElemT cfg al e d) :
+    ∀ (n : Nat) (ctx : Ctx) (pos : Nat) (v : Val) (p : Nat), readArray cfg e n ctx d pos = .ok (v, p) →
+      (al = true → sAlign cfg e ∣ pos) → ∀ q, p ≤ q → readArray cfg e n ctx (d.take q) pos = .ok (v, p) := by
+  intro n ctx pos v p h hpos q hq
+  cases e with
+  | sc s a =>
+    rw [readArray.eq_1] at h ⊢
+    cases hx : readScalarArray cfg s n d pos with
+    | some x =>
+      rw [hx] at h; simp only [] at h; subst h
+      rw [readScalarArray_take cfg s n d pos v p q hx hq]
+    | none =>
+      rw [hx] at h; simp only [] at h
+      rw [readScalarArray_none_append cfg s n d (d.take q) pos hx]
+      simp only []
+      obtain ⟨⟨vs, p'⟩, h1, h2⟩ := map_ok h
+      cases h2
+      rw [t_N cfg al _ d hPF hT n ctx pos vs _ h1 hpos q hq]; rfl
+  | enum b a f =>
+    rw [readArray.eq_2] at h ⊢
+    cases hx : readScalarArray cfg b n d pos with
+    | some x =>
+      rw [hx] at h
+      cases x with
+      | error e => cases h
+      | ok x =>
+        obtain ⟨xv, xp⟩ := x
+        cases xv <;> try (cases h; done)
+        cases h
+        rw [readScalarArray_take cfg b n d pos _ _ q hx hq]
+    | none =>
+      rw [hx] at h; simp only [] at h
+      rw [readScalarArray_none_append cfg b n d (d.take q) pos hx]
+      simp only []
+      cases h1 : readN cfg (.sc b a) n ctx d pos with
+      | error e => rw [h1] at h; cases h
+      | ok x =>
+        obtain ⟨vs, p'⟩ := x
+        rw [h1] at h; cases h
+        rw [t_N cfg al (.sc b a) d (pf_sc cfg al b a d) (t_sc cfg al b a d) n ctx pos vs _ h1
+          (fun _ => Nat.one_dvd _) q hq]
+  | ptr t =>
+    rw [readArray.eq_3 _ _ _ _ _ _ (by intros; contradiction) (by intros; contradiction)] at h ⊢
+    obtain ⟨⟨vs, p'⟩, h1, h2⟩ := map_ok h
+    cases h2
+    rw [t_N cfg al _ d hPF hT n ctx pos vs _ h1 hpos q hq]; rfl
+  | arr e' l =>
+    rw [readArray.eq_3 _ _ _ _ _ _ (by intros; contradiction) (by intros; contradiction)] at h ⊢
+    obtain ⟨⟨vs, p'⟩, h1, h2⟩ := map_ok h
+    cases h2
+    rw [t_N cfg al _ d hPF hT n ctx pos vs _ h1 hpos q hq]; rfl
+  | struct al' fs =>
+    rw [readArray.eq_3 _ _ _ _ _ _ (by intros; contradiction) (by intros; contradiction)] at h ⊢
+    obtain ⟨⟨vs, p'⟩, h1, h2⟩ := map_ok h
+    cases h2
+    rw [t_N cfg al _ d hPF hT n ctx pos vs _ h1 hpos q hq]; rfl
+  | union al' fs =>
+    rw [readArray.eq_3 _ _ _ _ _ _ (by intros; contradiction) (by intros; contradiction)] at h ⊢
+    obtain ⟨⟨vs, p'⟩, h1, h2⟩ := map_ok h
+    cases h2
+    rw [t_N cfg al _ d hPF hT n ctx pos vs _ h1 hpos q hq]; rfl
+
+theorem t_read0 (cfg : Cfg) (e : Ty) (hp : (Ty.arr e .nullTerm).plain = true) (ctx : Ctx) (d : Bytes)
+    (pos : Nat) (v : Val) (p : Nat) (h : read0 cfg e ctx d pos = .ok (v, p)) (q : Nat) (hq : p ≤ q) :
+    read0 cfg e ctx (d.take q) pos = .ok (v, p) := by
+  cases e with
+  | sc s a =>
+    rw [read0.eq_1] at h ⊢
+    have hs : s.size ≠ some 0 ∨ s = .void := by
+      simp only [Ty.plain, Bool.and_eq_true, Bool.or_eq_true, bne_iff_ne, beq_iff_eq] at hp
+      exact hp.1
+    exact readScalarNullTerm_take cfg s d pos v p q hs h hq
+  | enum b a f =>
+    rw [read0.eq_2] at h ⊢
+    have hs : b.size ≠ some 0 ∨ b = .void := by
+      simp only [Ty.plain, Bool.and_eq_true, bne_iff_ne] at hp
+      exact Or.inl hp.1
+    cases h1 : readScalarNullTerm cfg b d pos with
+    | error e => rw [h1] at h; cases h
+    | ok x =>
+      obtain ⟨xv, xp⟩ := x
+      rw [h1] at h
+      cases xv <;> try (cases h; done)
+      cases h
+      rw [readScalarNullTerm_take cfg b d pos _ _ q hs h1 hq]
+  | ptr ty => simp [Ty.plain] at hp
+  | arr e' len => simp [Ty.plain] at hp
+  | struct al fs => simp [Ty.plain] at hp
+  | union al fs => simp [Ty.plain] at hp
+
+mutual
+theorem t_ty (cfg : Cfg) (al : Bool) (d : Bytes) : ∀ (ty : Ty), ty.plain = true → ty.noBits = true →
+    ty.uniformAlign al = true → ty.pow2Aligned cfg → ElemT cfg al ty d
+  | .sc s a, _, _, _, _ => t_sc cfg al s a d
+  | .enum b a f, _, _, _, _ => t_enum cfg al b a f d
+  | .ptr t, _, _, _, _ => t_ptr cfg al t d
+  | .union _ _, hPl, _, _, _ => by simp [Ty.plain] at hPl
+  | .arr e len, hPl, hNB, hU, hP => by
+    have hPle : e.plain = true := by simp only [Ty.plain, Bool.and_eq_true] at hPl; exact hPl.2
+    simp only [Ty.noBits] at hNB
+    simp only [Ty.uniformAlign] at hU
+    simp only [Ty.pow2Aligned] at hP
+    have ih := t_ty cfg al d e hPle hNB hU hP
+    have ihPF := pf_ty cfg al d e hPle hNB hU hP
+    intro ctx pos v p h hpos q hq
+    simp only [sAlign] at hpos
+    cases len with
+    | fixed n =>
+      rw [read_arr_fixed] at h ⊢
+      exact t_array cfg al e d ihPF ih n ctx pos v p h hpos q hq
+    | expr toks =>
+      rw [read_arr_expr] at h ⊢
+      obtain ⟨n, h1, h2⟩ := bind_ok h
+      rw [h1]; simp only [Except.bind]
+      exact t_array cfg al e d ihPF ih n ctx pos v p h2 hpos q hq
+    | nullTerm =>
+      rw [read_arr_null] at h ⊢
+      exact t_read0 cfg e hPl ctx d pos v p h q hq
+    | eof => simp [Ty.plain] at hPl
+  | .struct al' fs, hPl, hNB, hU, hP => by
+    simp only [Ty.plain] at hPl
+    simp only [Ty.noBits] at hNB
+    simp only [Ty.uniformAlign, Bool.and_eq_true, beq_iff_eq] at hU
+    simp only [Ty.pow2Aligned] at hP
+    obtain ⟨rfl, hU⟩ := hU
+    intro ctx pos v p h hpos q hq
+    rw [read_struct, structLayout_G cfg al' fs hNB] at h ⊢
+    simp only [Except.bind] at h ⊢
+    obtain ⟨⟨vs, szs, pf⟩, h3, h4⟩ := bind_ok h
+    have hp : p = alignTo al' pf (Fields.maxAlign cfg fs 0) := by
+      cases h4; rfl
+    have hle := le_alignTo al' pf (Fields.maxAlign cfg fs 0)
+    have hdv : al' = true → allAlignDvd cfg pos fs :=
+      fun ha => allAlignDvd_of_sAlign cfg al' fs hP pos (hpos ha)
+    rw [t_fields cfg al' d fs hPl hNB hU hP (some 0) pos BitBuf.empty [] pos vs szs pf h3 hdv
+      (by intro o ho; cases ho; rfl) q (by omega)]
+    exact h4
+theorem t_fields (cfg : Cfg) (al : Bool) (d : Bytes) : ∀ (fs : Fields), Fields.plain fs = true →
+    Fields.noBits fs = true → Fields.uniformAlign al fs = true → fs.pow2Aligned cfg →
+    ∀ (so : Option Nat) (start : Nat) (bb : BitBuf) (ctx : Ctx) (pos : Nat) (vs : Vals) (szs : List (String × Nat)) (p : Nat),
+    readFields cfg al fs (offsG cfg al fs so) start bb ctx d pos = .ok (vs, szs, p) →
+    (al = true → allAlignDvd cfg start fs) → (∀ o, so = some o → pos = start + o) →
+    ∀ q, p ≤ q → readFields cfg al fs (offsG cfg al fs so) start bb ctx (d.take q) pos = .ok (vs, szs, p)
+  | .nil, _, _, _, _, so, start, bb, ctx, pos, vs, szs, p, h, _, _, q, _ => by
+    rw [readFields_nil] at h ⊢; exact h
+  | .cons name an ty bits rest, hPl, hNB, hU, hP, so, start, bb, ctx, pos, vs, szs, p, h, hdv, hinv, q, hq => by
+    simp only [Fields.plain, Bool.and_eq_true] at hPl
+    simp only [Fields.noBits, Bool.and_eq_true] at hNB
+    simp only [Fields.uniformAlign, Bool.and_eq_true] at hU
+    simp only [Fields.pow2Aligned] at hP
+    have hfa := alignment_p2 cfg ty hP.1
+    simp only [offsG] at h ⊢
+    rw [readFields_cons_nb _ _ _ _ _ _ _ _ _ _ _ _ _ _ (noBits_bits hNB.1.1)] at h ⊢
+    obtain ⟨⟨v, p1⟩, h1, h2⟩ := bind_ok h
+    obtain ⟨⟨vs', szs', p'⟩, h3, h4⟩ := bind_ok h2
+    obtain ⟨f1, f2, f3⟩ := fieldPos_facts cfg al ty so start pos hinv hfa (fun ha => (hdv ha).1)
+    generalize fieldPos cfg al ty (offOf cfg al ty so) start pos = fp at *
+    have hsa : al = true → sAlign cfg ty ∣ fp := fun ha => Nat.dvd_trans (sAlign_dvd_alignment cfg ty) (f2 ha)
+    obtain ⟨a1, _, a3⟩ := pf_ty cfg al d ty hPl.1 hNB.1.2 hU.1 hP.1 ctx fp v p1 h1 hsa
+    have hinv' : ∀ o, nextOf cfg al ty so = some o → p1 = start + o := by
+      intro o' ho'
+      cases so with
+      | none => simp [nextOf, offOf] at ho'
+      | some o =>
+        cases hs : ty.size cfg with
+        | none => simp [nextOf, offOf, hs] at ho'
+        | some k =>
+          simp only [nextOf, offOf, hs, Option.map_some, Option.bind_some, Option.some.injEq] at ho'
+          rw [a3 k hs, f3 o rfl]; omega
+    obtain ⟨b1, _⟩ := pf_fields cfg al d rest hPl.2 hNB.2 hU.2 hP.2 (nextOf cfg al ty so) start BitBuf.empty
+      (Ctx.set ctx name v) p1 vs' szs' p' h3 (fun ha => (hdv ha).2) hinv'
+    have hpp : p' = p := by cases h4; rfl
+    rw [t_ty cfg al d ty hPl.1 hNB.1.2 hU.1 hP.1 ctx fp v p1 h1 hsa q (by omega)]
+    simp only [Except.bind]
+    rw [t_fields cfg al d rest hPl.2 hNB.2 hU.2 hP.2 (nextOf cfg al ty so) start BitBuf.empty
+      (Ctx.set ctx name v) p1 vs' szs' p' h3 (fun ha => (hdv ha).2) hinv' q (by omega)]
+    exact h4
+end
+
+/-- **Window theorem** for types without bit-fields whose structures all use one `align` flag, with power-of-two
+    alignments and an aligned start. -/
+theorem read_prefix_alt (cfg : Cfg) (al : Bool) (ty : Ty) (hplain : ty.plain = true) (hnb : ty.noBits = true)
+    (hu : ty.uniformAlign al = true) (hp : ty.pow2Aligned cfg) (ctx : Ctx) (d1 : Bytes) (pos : Nat)
+    (hal : ty.alignsDivide cfg pos = true) (v : Val) (p : Nat)
+    (hr : read cfg ty ctx d1 pos = .ok (v, p)) (d2 : Bytes) (hpre : d1.take p <+: d2) :
+    read cfg ty ctx d2 pos = .ok (v, p) := by
+  have h1 := t_ty cfg al d1 ty hplain hnb hu hp ctx pos v p hr
+    (fun _ => sAlign_dvd_of_alignsDivide cfg pos ty hal) p (Nat.le_refl _)
+  exact read_extend cfg ty hplain ctx (d1.take p) pos v p h1 d2 hpre
+
 end Cstruct.Core.Lemmas
